@@ -132,6 +132,14 @@ def render_version(project, version, sts=None, apps=None):
             installed.append('%s.apps.C' % pkg)
         else:
             installed.append(pkg)
+        mig = app.get('migrations')
+        if mig:
+            have = [(name, f) for name, f in sorted(mig['files'].items())
+                    if f.get('from', 0) <= version]
+            if have:
+                files['%s/migrations/__init__.py' % pkg] = ''
+                for name, f in have:
+                    files['%s/migrations/%s.py' % (pkg, name)] = f['text']
         if app.get('no_evolutions_pkg'):
             continue
         deps = {}
@@ -148,14 +156,13 @@ def render_version(project, version, sts=None, apps=None):
                     continue     # written in-simulation by evolve --hint -w
                 files['%s/evolutions/%s.py' % (pkg, evo['label'])] = \
                     spec.render_evolution_file(evo)
-        mig = app.get('migrations')
-        if mig:
-            have = [(name, f) for name, f in sorted(mig['files'].items())
-                    if f.get('from', 0) <= version]
-            if have:
-                files['%s/migrations/__init__.py' % pkg] = ''
-                for name, f in have:
-                    files['%s/migrations/%s.py' % (pkg, name)] = f['text']
+                # database-specific raw SQL evolutions:
+                # evolutions/<alias>_<label>.sql takes precedence over the
+                # python module when that database is evolved
+                for alias, text in sorted((evo.get('sql_files')
+                                           or {}).items()):
+                    files['%s/evolutions/%s_%s.sql' % (
+                        pkg, alias, evo['label'])] = text
     if project.get('router'):
         files['router.py'] = render_router(project['router'])
     return files, installed
